@@ -68,7 +68,8 @@ def run(ctx):
     # (d) bursts: fresh instances created in their own threads and FIRST used by several threads at once; values pooled over
     # the instances (a generator that is not ready, or not independent, at the first concurrent use repeats values)
     import conc
-    conc.burst(ctx, 6 if ctx.quick() else 24, 8, 3 if ctx.quick() else 12)
+    for ni, nt in ((24, 8), (48, 4)):      # many fresh instances: a first-use race must happen on two of them to show (measured: 5-17 repeats per run on such a seeded change)
+        conc.burst(ctx, ni if ctx.quick() else 4 * ni, nt, 2 if ctx.quick() else 6)
     # (e) hammer: one instance, 16 threads, thousands of calls of ONE kind each: a race window of a few
     # instructions between two critical sections (a generator copied out and written back, a two-step fork) is only hit
     # under real contention and at volume (measured on such a seeded change: 12-117 repeated values per run, none at 8 x 400)
